@@ -210,6 +210,15 @@ def login_trace(enc_mod, version, seed, keybits, token_len, n_play, thr):
 
     def scenario(run):
         c = run.make_connection(allowed_versions={version})
+        if seed % 4 in (1, 2):
+            # an application watching its own outgoing traffic: an ordinary outgoing listener runs after the packet is on
+            # the wire, whatever it does (return, or raise IgnorePacket) cannot change what follows the encryption response
+            from minecraft.exceptions import IgnorePacket
+
+            def watcher(pkt):
+                if seed % 4 == 1:
+                    raise IgnorePacket
+            c.register_packet_listener(watcher, serverbound.login.EncryptionResponsePacket, outgoing=True)
         c.connect()
         run.settle()
         for k in range(n_play):
